@@ -316,6 +316,31 @@ pub fn run(thorough: bool) -> Report {
         programs.push(vec![format!("10 {}", r)]);
         programs.push(vec![format!("10 PRINT 1: {}", r)]);
     }
+    // (v) keywords typed with blanks between their letters (the listing spells them solid), in
+    // particular the two keywords that change how the rest of the line is read
+    let mut spaced = 0u64;
+    for stmt in ["REM hello", "DATA 7, \"x y\"", "PRINT 1", "GOTO 10", "GOSUB 10", "INPUT X", "RESTORE", "IF X THEN 10 ELSE 10", "FOR I = 1 TO 2 STEP 1", "DEF FNA(X) = X", "READ X"] {
+        let kw_len = stmt.find(' ').unwrap_or(stmt.len());
+        for at in 1..kw_len {
+            for blank in [" ", "\t", "  "] {
+                let text = format!("{}{}{}", &stmt[..at], blank, &stmt[at..]);
+                programs.push(vec![format!("10 {}", text)]);
+                programs.push(vec![format!("10 PRINT 2: {}", text), "20 READ A: PRINT A".to_string()]);
+                spaced += 2;
+            }
+        }
+    }
+    // (vi) line numbers at the edges of the range: the listing shows every stored line
+    for p in [
+        vec!["0 PRINT \"a\"", "18446744073709551615 PRINT \"z\""],
+        vec!["10 READ A,B$: PRINT A;B$", "18446744073709551615 DATA 1.5,tail"],
+        vec!["18446744073709551614 PRINT 1", "18446744073709551615 PRINT 2"],
+        vec!["4294967295 PRINT 0", "4294967296 PRINT 1", "9007199254740993 PRINT 2", "9223372036854775808 PRINT 3"],
+        vec!["18446744073709551615 PRINT \"only\""],
+        vec!["0 DATA 5", "1 READ A: PRINT A"],
+    ] {
+        programs.push(p.iter().map(|l| l.to_string()).collect());
+    }
     // two-line programs over a core
     let core: Vec<String> = data_lines
         .iter()
@@ -392,6 +417,7 @@ pub fn run(thorough: bool) -> Report {
         "numerals": numerals().len(),
         "data_lines": data_lines.len(),
         "two_line_core": core.len(),
+        "keyword_with_inner_blank_programs": spaced,
         "sessions_with_history": session_pairs,
         "samples": ["10 IF X THEN 20 ELSE 10", "10 DATA x \"y\", \" a \" : PRINT 1", format!("10 PRINT {}", "9".repeat(12))],
     });
